@@ -410,12 +410,12 @@ func (h *lcH) finish(finalStop bool) string {
 	}
 	h.feedWG.Wait()
 	census := 0
-	for i := 0; i < 400; i++ {
+	for i := 0; i < 600; i++ { // goroutines need a moment to unwind after their last log entry (up to 3 s under load)
 		census = h.census()
 		if census == 0 || hang == 1 {
 			break
 		}
-		time.Sleep(500 * time.Microsecond)
+		time.Sleep(5 * time.Millisecond)
 	}
 	if census != 0 && lcDump != nil {
 		lcDump()
